@@ -66,7 +66,7 @@ Definition bash_quote (wb : option str) (v : str) : str :=
   else s.
 
 Definition bash_list_line (val : raw) : str :=
-  let d := replace_pairs bash_displayReplacer_pairs (display val) in
+  let d := replace_pairs bash_displayReplacer_pairs (replace1 bash_sanitizer (display val)) in
   let desc := replace_pairs bash_displayReplacer_pairs (description val) in
   match desc with
   | [] => d
